@@ -6,7 +6,12 @@
 package r17
 
 import (
+	"time"
+
+	"github.com/lni/dragonboat/v4/config"
+	"github.com/lni/dragonboat/v4/internal/registry"
 	"github.com/lni/dragonboat/v4/internal/server"
+	"github.com/lni/dragonboat/v4/internal/transport"
 	pb "github.com/lni/dragonboat/v4/raftpb"
 )
 
@@ -26,3 +31,24 @@ type RateLimiter = server.InMemRateLimiter
 
 // NewRateLimiter is server.NewInMemRateLimiter.
 func NewRateLimiter(maxSize uint64) *RateLimiter { return server.NewInMemRateLimiter(maxSize) }
+
+// Transport side of the progress sub-check (per target send queue).
+type (
+	// Transport is transport.Transport.
+	Transport = transport.Transport
+	// Sink is transport.VerifR17Sink.
+	Sink = transport.VerifR17Sink
+	// Registry is registry.Registry.
+	Registry = registry.Registry
+)
+
+// NewTransport is transport.VerifR17NewTransport.
+func NewTransport(c config.NodeHostConfig, sink *Sink) (*Transport, *Registry, func(), error) {
+	return transport.VerifR17NewTransport(c, sink)
+}
+
+// SetIdleTimeout is transport.VerifR17SetIdleTimeout.
+func SetIdleTimeout(d time.Duration) time.Duration { return transport.VerifR17SetIdleTimeout(d) }
+
+// QueueCount is transport.VerifR17QueueCount.
+func QueueCount(t *Transport) int { return transport.VerifR17QueueCount(t) }
